@@ -993,7 +993,7 @@ class _Bounded:
             name = "builtins." + f.id
         if name is None and isinstance(f, ast.Attribute):
             recv = self.ev(f.value, at)
-            if isinstance(recv, _Arr) and f.attr in ("astype", "sum", "prod", "cumsum", "cumprod", "copy"):
+            if isinstance(recv, _Arr) and f.attr in ("astype", "sum", "prod", "cumsum", "cumprod", "copy", "argmax", "argmin", "max", "min", "any", "all"):
                 name, args = f.attr, [recv] + args
         if name is None:
             raise _NotRead(f"call `{short(e, 40)}`")
@@ -1097,6 +1097,31 @@ class _Bounded:
         if name in ("cumsum", "cumprod"):
             only(2, "axis")
             return _cumulative(args[0], arg(1, "axis", None), (lambda x, y: x + y) if name == "cumsum" else (lambda x, y: x * y))
+        if name in ("argmax", "argmin", "max", "min", "amax", "amin", "any", "all"):
+            # reductions that SELECT: only on numeric entries (flags, counters); the first extremal position, like numpy
+            only(2, "axis", "keepdims")
+            if kws.get("keepdims", False) is not False:
+                raise _NotRead("keepdims")
+            a = _as_arr(args[0])
+            ax = arg(1, "axis", None)
+            if ax is None:
+                if a.ndim != 1 or a.batch is not None:
+                    raise _NotRead(f"{name} without axis")
+                ax = 0
+            ax = _axis(a, ax)
+            out = []
+            for line in _lines(a, ax):
+                vals = [_const_of(a.flat[k]) for k in line]
+                if name in ("argmax", "argmin"):
+                    best = max(vals) if name == "argmax" else min(vals)
+                    out.append(Poly.const(vals.index(best)))
+                elif name in ("max", "amax", "min", "amin"):
+                    out.append(Poly.const(max(vals) if name in ("max", "amax") else min(vals)))
+                else:
+                    out.append(Poly.const(int(any(v != 0 for v in vals)) if name == "any" else int(all(v != 0 for v in vals))))
+            shape = list(a.shape)
+            r = _Arr(shape[:ax] + shape[ax + 1:], out, None if a.batch is None else (a.batch - 1 if a.batch > ax else a.batch))
+            return _scalar_out(r) if r.batch is None else r
         if name in ("sum", "prod"):
             only(2, "axis", "keepdims")
             kd = kws.get("keepdims", False)
@@ -2545,6 +2570,7 @@ _G, _R, _RE, _E, _A2, _P, _M = "rl_blox/blox/gae.py", "rl_blox/blox/return_estim
 _NSTEP_LOOP = '    n_step_return = jnp.zeros(reward.shape[0], dtype=jnp.float32)\n    discount = jnp.ones(reward.shape[0], dtype=jnp.float32)\n    for t in range(reward.shape[1]):\n        n_step_return += discount * reward[:, t]\n        discount *= gamma * (1 - terminated[:, t])\n    return n_step_return, discount'
 _RTG_LOOP = '    discounted_returns = []\n    accumulated_return = 0.0\n    for r in reversed(rewards):\n        accumulated_return *= gamma\n        accumulated_return += r\n        discounted_returns.append(accumulated_return)\n    return np.array(list(reversed(discounted_returns)))'
 MUTANTS = [
+    {"id": "c07-nstep-vectorised-argmax-zero-means-none", "file": "rl_blox/blox/return_estimates.py", "rule": "R2", "find": '    n_step_return = jnp.zeros(reward.shape[0], dtype=jnp.float32)\n    discount = jnp.ones(reward.shape[0], dtype=jnp.float32)\n    for t in range(reward.shape[1]):\n        n_step_return += discount * reward[:, t]\n        discount *= gamma * (1 - terminated[:, t])\n    return n_step_return, discount\n', "replace": '    horizon = reward.shape[1]\n    steps = jnp.arange(horizon)\n    hit = jnp.any(terminated > 0, axis=1)\n    first = jnp.argmax(terminated > 0, axis=1)\n    last = jnp.where(first > 0, first, horizon - 1)\n    live = steps[None, :] <= last[:, None]\n    n_step_return = jnp.sum(jnp.where(live, gamma ** steps[None, :] * reward, 0.0), axis=1)\n    discount = jnp.where(hit, 0.0, gamma ** horizon)\n    return n_step_return, discount\n'},
     {"id": "c07-gae-no-cut", "file": _G, "rule": "R1", "find": "        gae = delta + gamma * lmbda * (1 - terminated) * gae", "replace": "        gae = delta + gamma * lmbda * gae"},
     {"id": "c07-gae-delta-no-mask", "file": _G, "rule": "R1", "find": "        delta = reward + gamma * next_value * (1 - terminated) - value", "replace": "        delta = reward + gamma * next_value - value"},
     {"id": "c07-gae-carry-cut", "file": _G, "rule": "R1", "find": "        return gae, gae", "replace": "        return gae * (1 - terminated), gae"},
